@@ -234,8 +234,8 @@ def rippleSub : List (Nat × Nat) → Nat → Bool → BM (List Nat)
     let t ← rippleSub rest r.2 keep
     pure (r.1 :: t)
 
-/-- `NewSubtractor` for the Yao target.  Result bits above `len(x)+1` are the
-zero wire (not the borrow). -/
+/-- `NewSubtractor` for the Yao target.  Result bits above `len(x)+1` are
+copies of the final borrow `z[len(x)]` (the sign of the difference). -/
 def rippleSubtractor (x y : List Nat) (nz : Nat) : BM (List Nat) := do
   let p ← zeroPad x y
   let x := p.1.take nz
@@ -243,8 +243,7 @@ def rippleSubtractor (x y : List Nat) (nz : Nat) : BM (List Nat) := do
   let keep := decide (x.length < nz)
   let cin ← zeroWire
   let body ← rippleSub (x.zip y) cin keep
-  let z ← zeros (nz - (x.length + 1))
-  pure (body ++ z)
+  pure (body ++ List.replicate (nz - (x.length + 1)) (body.getLastD 0))
 
 /-- `NewKoggeStoneSubtractor`. -/
 def ksSubtractor (x y : List Nat) (nz : Nat) : BM (List Nat) := do
@@ -289,8 +288,8 @@ def ksSubtractor (x y : List Nat) (nz : Nat) : BM (List Nat) := do
   for i in [1:n] do
     let w ← gate .xor pInit[i]! g[i - 1]!
     z := z.push w
-  let zs ← zeros (nz - n)
-  pure (z.toList ++ zs)
+  -- leftover bits: copies of z[n-1] (the borrow)
+  pure (z.toList ++ List.replicate (nz - n) z[n - 1]!)
 
 /-- `NewSubtractor`. -/
 def newSubtractor (gmw : Bool) (x y : List Nat) (nz : Nat) : BM (List Nat) :=
@@ -522,13 +521,17 @@ def xorBits : List (Nat × Nat) → BM (List (List Nat))
     let r ← xorBits rest
     pure ([w] :: r)
 
-/-- `Hamming(cc, a, b, r)`; needs `max(len a, len b) ≥ 2` (the Go code indexes
-`arr[1]`). -/
+/-- `Hamming(cc, a, b, r)`. -/
 def hamming (gmw : Bool) (a b : List Nat) (nz : Nat) : BM (List Nat) := do
   let p ← zeroPad a b
   let arr ← xorBits (p.1.zip p.2)
   let arr ← hammingTree gmw arr.length arr
-  newAdder gmw (arr.getD 0 []) (arr.getD 1 []) nz
+  if arr.length = 1 then do
+    -- one bit inputs: the distance is the single XOR bit (added to zero)
+    let z ← zeroWire
+    newAdder gmw (arr.getD 0 []) [z] nz
+  else
+    newAdder gmw (arr.getD 0 []) (arr.getD 1 []) nz
 
 /-! ### circ_multiplier.go -/
 
@@ -541,11 +544,9 @@ def halfAdder (a b : Nat) : BM (Nat × Nat) := do
 /-- `NewFullAdder` with a carry wire. -/
 def fullAdder' (a b cin : Nat) : BM (Nat × Nat) := fullAdder a b cin true
 
-/-- `NewArrayMultiplier`.  The model returns the wires of `z` that the Go code
-connects; `z[1]` is overwritten by the zero wire when
-`len(z) > 2·len(x) + …` exactly as the Go loop
-`for i := j+len(x)+1; i < len(z); i++ { z[1] = cc.ZeroWire() }` does; result
-wires that stay unconnected are reported as `none`. -/
+/-- `NewArrayMultiplier`.  The result wires are collected in an array of
+options (`none` = a wire the builder leaves unconnected; after the surplus-bit
+fix `z[i] = cc.ZeroWire()` every result wire is connected). -/
 def arrayMultiplierOpt (x y : List Nat) (nz : Nat) : BM (Array (Option Nat)) := do
   let p ← zeroPad x y
   let x := (p.1.take nz).toArray
@@ -555,9 +556,9 @@ def arrayMultiplierOpt (x y : List Nat) (nz : Nat) : BM (Array (Option Nat)) := 
   if n = 1 then
     let w ← gate .and x[0]! y[0]!
     z := z.set! 0 (some w)
-    if nz > 1 then
+    for i in [1:nz] do
       let zw ← zeroWire
-      z := z.set! 1 (some zw)
+      z := z.set! i (some zw)
     return z
   -- Y0 sums
   let mut sums : Array Nat := #[]
@@ -594,15 +595,13 @@ def arrayMultiplierOpt (x y : List Nat) (nz : Nat) : BM (Array (Option Nat)) := 
       z := z.set! (j + i) (some r.1)
       if i + 1 ≥ n && j + i + 1 < nz then z := z.set! (j + i + 1) (some r.2)
       c := r.2
-  for _i in [j + n + 1:nz] do
+  for i in [j + n + 1:nz] do
     let zw ← zeroWire
-    z := z.set! 1 (some zw)
+    z := z.set! i (some zw)
   return z
 
-/-- `NewArrayMultiplier` with unconnected result wires read as `none → `
-not representable: the generator is defined when all result wires are
-connected (`nz ≤ 2·max+1`, see `arrayMultiplierOpt`); for wider results the
-driver reports the unconnected wires. -/
+/-- `NewArrayMultiplier` as a list of result wires (`none` if some result wire
+were left unconnected, which no longer happens). -/
 def arrayMultiplier (x y : List Nat) (nz : Nat) : BM (Option (List Nat)) := do
   let z ← arrayMultiplierOpt x y nz
   pure (z.toList.mapM id)
